@@ -415,6 +415,7 @@ pub fn property(_ctx: &Ctx) -> Property {
         subs: vec![
             sub::<Case, _, _>("conflict", 6000, 150000, move |c| (program_strategy(CONFLICT, if c.thorough() { 80 } else { 30 }, 3, 4), calls(), any::<bool>()), check),
             sub::<Case, _, _>("text", 4000, 100000, move |c| (program_strategy(TEXT, if c.thorough() { 80 } else { 30 }, 3, 4), calls(), any::<bool>()), check),
+            sub::<Case, _, _>("text-conflict", 3000, 80000, move |c| (program_strategy(TEXT_CONFLICT, if c.thorough() { 80 } else { 30 }, 3, 4), calls(), any::<bool>()), check),
         ],
     }
 }
